@@ -12,6 +12,9 @@ PROPS = {
              "solution's true residual must match the reported one (kappa-aware allowance), iterations <= maxiter (+L-1), Krylov combinations must reach 1e-8 within 100 iterations. "
              "aggregation/smoothed: distributed coarsening classes called directly with near-null-space of dimension 0..3: global partition into non-empty aggregates, P*B_coarse == B, "
              "P^T P = I, R == P^T, A_c == R*A*P/alpha against dense references. direct: mpi::direct::skyline_lu equals the dense solution for any distribution. "
+             "solve_block2: the same through a 2x2 block backend (SPD block systems with non-commuting blocks, truthfulness on the scalar expansion, convergence). "
+             "one_level: mpi::block_preconditioner and mpi::subdomain_deflation (constant deflation) around the serial runtime preconditioner (amg / relaxation). "
+             "direct_block2/3: the distributed direct solver with block values. "
              "non-trivial: >=2 ranks own rows (and >=2 iterations / >=2 aggregates). distinct = distinct decoded choice sequences per rank count.",
         assumptions=["message arrival order is whatever OpenMPI 4.1.4 produces on one shared-memory node", "only the merge repartitioner is available offline (no ParMETIS / PT-Scotch)",
                      "termination is observed through a watchdog; a hang that does not reproduce is reported as inconclusive"],
